@@ -227,6 +227,9 @@ func (b *Batch) Commit() error {
 		}
 	}
 
+	// 完成标识已写入, 批处理的记录不再可能被丢弃
+	b.db.clearUnsealed()
+
 	b.staged = nil
 	b.stageIndex = nil
 	b.committed = true
@@ -307,6 +310,9 @@ func (b *Batch) flushStaged() error {
 	// 追加操作全部完成后, 更新索引
 	for i, record := range b.staged {
 		var pos *datafile.DataPos
+		// 完成标识写入之前该记录仍可能因崩溃被丢弃, 先登记其即将覆盖的旧位置供并发的 merge 保留, 再更新索引
+		// 批处理持有 DB 锁, 此处查询到的旧位置在索引更新之前不会变化
+		b.db.noteUnsealed(record.Key, b.db.index.Get(record.Key))
 		// 维护总数据量, 与 appendLogRecord 保持一致
 		b.db.totalSize += int64(dataPos[i].Size)
 		if record.Type == datafile.LogRecordDeleted {
